@@ -208,6 +208,14 @@ def run(chk):
         ends = [n for n in ff.cfg.nodes if node_calls(n, "self._end_upload")]
         chk.check(any(ff.cfg.dominates(e, ff.cfg.node_of(s_)) for e in ends), "R5", f"{CL}:{C}.read | end frame read before done", rd.loc(s_), "")
 
+    cls13 = repo.cls(CL, C, "C13.R5")
+    for attr, ok_in in (("crc_supported", {"__init__"}), ("_crc", {"__init__"}), ("_server_crc", {"__init__", "_end_upload"})):
+        for mname, m in cls13.methods.items():
+            for s_ in attr_stores(m.node, attr) + [n for n in own_nodes(m.node) if isinstance(n, ast.Assign) and isinstance(n.targets[0], ast.Tuple) and any(dotted(e) == f"self.{attr}" for e in n.targets[0].elts)]:
+                chk.check(mname in ok_in, "R5", f"{CL}:{C}.{mname} | writer of {attr}", m.loc(s_),
+                          f"`{src(s_)[:60]}` outside {sorted(ok_in)}: the CRC negotiated with the server is switched off or replaced during the transfer, corrupted data is returned unchecked")
+    chk.ok("R5", f"{CL}:{C} | writers of CRC state", f"{CL}:{cls13.node.lineno}", "scanned")
+
     # ------------------------------------------------------------------ R6 block boundary + end confirm
     ackc = [n for n in ff.cfg.nodes if node_calls(n, "self._ack_block")]
     chk.floor("R6", len(ackc), 1, "_ack_block call in read")
